@@ -63,7 +63,7 @@ Theorem C08_cancel_free_counters : forall ops reserve maxfill s outs j jb s' out
   find_job (h_jobs (s_hq s)) j = Some jb ->
   find_worker (c_workers (s_core s)) w = Some wk -> w_assign wk = Sn a p f ->
   exists wk' a' p', find_worker (c_workers (s_core s')) w = Some wk' /\
-    w_assign wk' = Sn a' p' (fold_left (fun acc id => res_add acc (request_of (s_core s) id)) (filter (fun id => N.eqb (fst id) j) a) f) /\
+    w_assign wk' = Sn a' p' (fold_left (fun acc id => res_add_cap acc (request_of (s_core s) id) (w_res wk)) (filter (fun id => N.eqb (fst id) j) a) f) /\
     w_res wk' = w_res wk /\
     (forall id, In id a' -> fst id <> j) /\ (forall id, In id p' -> fst id <> j).
 Proof. exact cancel_free_counters_sum. Qed.
